@@ -363,21 +363,21 @@ func checkG1(prop, tier string) int {
 			"rule": "breadth-first search over step sequences on the real implementation (one search per configuration); a state is distinct by the canonical key of moss's private state at the quiescent point (plus budgets used); " +
 				"distinct_nontrivial counts distinct (top,mid,base,clean,lower) section-height tuples with at least two non-empty sections; " +
 				"every transition is an execution of the implementation itself (no separate model), hence traces_validated_against_impl = transitions",
-			"samples":                    st.Samples,
-			"exhaustive":                 st.Exhaustive && st.Infra == 0,
-			"cap_hit":                    strings.Join(caps, "; "),
-			"bound_completed":            bounds,
-			"configurations":             cfgNames,
-			"states_per_config":          st.PerCfg,
-			"section_height_tuples":      shapesList(st.Shapes),
-			"pruned_by_known_finding":    st.KnownPruned,
-			"known_findings_hit":         st.Known,
-			"infrastructure_errors":      st.Infra,
-			"unstable_violations":        unstable,
-			"threads_killed_at_teardown": st.Killed,
-			"terminal_phase_runs":        st.Terminals,
-			"alphabets":                  alphas,
-			"note":                       strings.Join(notes, " || "),
+			"samples":                             st.Samples,
+			"exhaustive":                          st.Exhaustive && st.Infra == 0,
+			"cap_hit":                             strings.Join(caps, "; "),
+			"bound_completed":                     bounds,
+			"configurations":                      cfgNames,
+			"states_per_config":                   st.PerCfg,
+			"section_height_tuples":               shapesList(st.Shapes),
+			"states_showing_only_a_known_finding": st.KnownPruned,
+			"known_findings_hit":                  st.Known,
+			"infrastructure_errors":               st.Infra,
+			"unstable_violations":                 unstable,
+			"threads_killed_at_teardown":          st.Killed,
+			"terminal_phase_runs":                 st.Terminals,
+			"alphabets":                           alphas,
+			"note":                                strings.Join(notes, " || "),
 		}}
 	writeEvidence(ev)
 	fmt.Fprintf(os.Stderr, "[%s %s] states=%d transitions=%d shapes=%d violations=%d known=%v infra=%d exhaustive=%v wall=%.1fs\n",
